@@ -1,12 +1,12 @@
 from harness.props import base
 from harness import preds
 LEVEL = 'other'
-VFILES = ['Tok.v', 'TokShape.v', 'Engine.v', 'EngineShape.v', 'Properties/C02.v']
+VFILES = ['Tok.v', 'TokShape.v', 'Engine.v', 'EngineShape.v', 'EngineFuel.v', 'Properties/C02.v']
 TECHNIQUE = ('Coq invariant proofs on the pipeline model for the shape of the result (non-empty nodes, one end marker) + tok/parse correspondence of the total '
              'Gallina model (tree or explicit error value) + search for any exception / malformed module on the implementation')
 EXPLANATION = ('Proved on the pipeline model for every version, mode, start rule and text (Properties/C02.v): whenever a tree is returned every interior node has at '
                'least one child (EngineShape.parse_nonempty_nodes: pop, convert_node, stack removal and error recovery never build an empty node) and the token '
-               'stream ends with exactly one ENDMARKER (TokShape.tok_shape). C02_total is not closed as a theorem (DESIGN.md section 6, C02): that a tree is always '
+               'stream ends with exactly one ENDMARKER (TokShape.tok_shape); the engine never exhausts the fuel the model gives it and never finds its stack empty (EngineFuel.parse_fuel_suffices: at most two steps per stack frame and token). C02_total is not closed as a theorem (DESIGN.md section 6, C02): that a tree is always '
                'returned is decided by (a) the correspondence of the total Gallina model (which returns a tree or an explicit error value, never diverges) with the '
                'implementation, and (b) search for any exception / malformed module shape on the implementation.')
 LEVEL_TEXT = EXPLANATION
